@@ -187,15 +187,15 @@ def _asm_cfgs():
 
 @obligation(P, 'O1.assembly[tri1_f2]', cap=400)
 def o1_small(h):
-    """one triangle, 2 fields (6 dofs): shape; entry (u,v) = block sum for symmetric blocks; result symmetric; for arbitrary
-    blocks the result is the TRANSPOSED block sum — all masks, all block values, one query per goal"""
+    """one triangle, 2 fields (6 dofs): shape; entry (u,v) = block sum for symmetric blocks; result symmetric — all masks, all
+    (symmetric) block values, one query per goal"""
     c = _asm_cfgs()['tri1_f2']
     _asm_meta(h, [c], 'kValues: 36 free reals')
-    px.run_px(h, c.name, make_assembly_harness(c, ASM_GOALS[:4]), cap=120, order=('lra2', 'core'), expect_goals=ASM_GOALS[:4])
+    px.run_px(h, c.name, make_assembly_harness(c, ASM_GOALS[:3]), cap=120, order=('lra2', 'core'), expect_goals=ASM_GOALS[:3])
 
 
 def _register_o1_rows():
-    for name, tiers, goals in (('tri2_f2', ('quick', 'thorough'), ASM_GOALS[:2] + ASM_GOALS[3:4]), ('tri2b_f2', ('thorough',), ASM_GOALS[:4])):
+    for name, tiers, goals in (('tri2_f2', ('quick', 'thorough'), ASM_GOALS[:2]), ('tri2b_f2', ('thorough',), ASM_GOALS[:3])):
         for k in range(4):
             rows = [k, k + 4]
 
@@ -204,11 +204,26 @@ def _register_o1_rows():
                 _asm_meta(h, [c], 'kValues: 72 free reals; this obligation owns rows %s of the assembled matrix (one query per entry (u,v), v = 0..7)' % rows)
                 px.run_px(h, c.name, make_assembly_harness(c, goals, rows=rows, per_entry=True), cap=120, order=('lra2', 'core'), expect_goals=goals)
             ob.__doc__ = ('two triangles / 4 nodes / 2 fields (8 dofs): entry (u,v) of assemble_sparse_stiffness_matrix(kValues, conns, dofManager) equals the sum over (e,i,j) with '
-                          'unknown(e,i)=u, unknown(e,j)=v of kValues[e,i,j] for symmetric blocks, and the transposed sum for arbitrary blocks — all masks, all block values')
+                          'unknown(e,i)=u, unknown(e,j)=v of kValues[e,i,j] for symmetric element blocks — all masks, all block values')
             obligation(P, 'O1.assembly[%s rows %d,%d]' % (name, rows[0], rows[1]), tiers=tiers, cap=900)(ob)
 
 
 _register_o1_rows()
+
+
+DESIGNED_NOT_REGISTERED.append(
+    ('O1 goal "assembled_entry_is_the_block_sum_transposed_for_arbitrary_blocks" (what the unchanged tree computes for unsymmetric blocks; discharges on the unchanged tree, '
+     'tri1_f2 5 s, tri2_f2 2 s per entry)', 'a description of the present behaviour, not a property: it turns into a violation as soon as the row/column orientation is '
+     'corrected; kept in make_assembly_harness for diagnosis only'))
+
+
+@obligation(P, 'O1.assembly_orientation[tri2_f2]', tiers=('thorough',), cap=1800)
+def o1_orientation_2el(h):
+    """the narrow orientation query of O1.assembly_orientation on two triangles / 8 dofs (one query per entry)"""
+    c = _asm_cfgs()['tri2_f2']
+    _asm_meta(h, [c], 'kValues: 72 free reals, no symmetry hypothesis')
+    g = ['assembled_entry_is_the_block_sum_for_arbitrary_blocks']
+    px.run_px(h, c.name, make_assembly_harness(c, g, per_entry=True), cap=120, order=('lra2', 'core'), expect_goals=g)
 
 
 @obligation(P, 'O1.assembly_orientation', cap=400)
@@ -354,7 +369,7 @@ import contextlib
 @contextlib.contextmanager
 def det_by_closed_form():
     """jnp.linalg.det carries a custom JVP that runs a pivoted LU (`_cofactor_solve`), which has no relational encoding for a
-    symbolic matrix; while TRACING it is replaced by JAX's own closed-form 3x3 primal `_det_3x3` (whose derivative is the
+    symbolic matrix; while TRACING it is replaced by JAX's own closed-form primal `_det_3x3` / `_det_2x2` (whose derivative is the
     cofactor matrix). Ground validation compares against, and every replay runs, the real jnp.linalg.det."""
     import jax.numpy as jnp
     import jax.numpy.linalg as jl
@@ -363,9 +378,11 @@ def det_by_closed_form():
 
     def det3(a):
         a = jnp.asarray(a)
-        if a.shape != (3, 3):
-            return saved(a)
-        return _l._det_3x3(a)
+        if a.shape[-2:] == (3, 3):
+            return _l._det_3x3(a)
+        if a.shape[-2:] == (2, 2):
+            return _l._det_2x2(a)
+        return saved(a)
     jl.det = det3
     try:
         yield
@@ -377,3 +394,483 @@ NOTE_DET = ('jnp.linalg.det (3x3): its custom JVP (pivoted LU) is replaced at tr
             'translator validation compares the encoded jaxpr with the unpatched real function, replays run the unpatched real function')
 NOTE_UF = ('log and pow (non-integer exponent) are uninterpreted functions of their arguments (Ackermannised); the symmetry / equality goals are identities of the '
            'autodiff expressions that hold for arbitrary values of these functions')
+
+
+def reciprocal_div_hook(ctx, eqn, iv):
+    """x / d with a symbolic denominator d := x * r_d with one fresh r_d per distinct denominator term (hash-consed) and the
+    side condition d != 0 -> r_d * d = 1. Goals that are identities of the autodiff expressions then are POLYNOMIAL identities
+    (z3 treats `/` with a non-constant divisor as an opaque operator otherwise)."""
+    from .. import jx
+
+    def d(x, y):
+        if not isz(y):
+            return NotImplemented
+        key = ('c02recip', jx.term_key(y))
+        if key not in ctx.cache:
+            r = ctx.fresh('recip')
+            ctx.cache[key] = (r, y)          # keeps y alive: z3 AST ids are reused after garbage collection
+            ctx.add_side(z3.Implies(y != 0, r * y == 1))
+            ctx.denoms.append((ctx.guard(), y))
+        return sym.v_mul(x, ctx.cache[key][0])
+    a, b = [jx.lift(v) for v in iv]
+    if not any(isz(t) for t in b.reshape(-1)):
+        return NotImplemented
+    out = jx.ew(lambda x, y: d(x, y) if isz(y) else (sym.toz(x) / sym.toz(y) if isz(x) else x / y), a, b)
+    return out
+
+
+def jx_ctx():
+    from .. import jx
+    ctx = jx.Ctx()
+    ctx.hooks['div'] = reciprocal_div_hook
+    return ctx
+
+
+def zsimp(x):
+    """difference of two symbolic expressions in sum-of-monomials normal form (z3's own rewriter); floats pass through"""
+    if isz(x):
+        return z3.simplify(x, som=True)
+    return x
+
+
+def _exact_binop_hook(op):
+    """constant (x) constant inside the traced program is folded by JX with the real primitive, i.e. ROUNDED to binary64, while
+    constant (x) symbolic is exact: identities of the autodiff expressions (K[a,b] vs K[b,a]: the one-hot tangent passes through
+    different factors first) then hold only up to an ulp in the encoding. Under the all-reals semantics of DESIGN section 2
+    (rounding of evaluation is outside every claim) an INEXACT constant product / sum is kept as the exact rational."""
+    from fractions import Fraction
+    from .. import jx
+    import operator
+    fop = {'mul': operator.mul, 'add': operator.add, 'sub': operator.sub}[op]
+
+    def hook(ctx, eqn, iv):
+        a, b = [jx.lift(v) for v in iv]
+        if a.dtype == object or b.dtype == object:
+            if any(isz(t) for t in a.reshape(-1)) or any(isz(t) for t in b.reshape(-1)):
+                return NotImplemented
+        if onp.asarray(a).dtype.kind not in 'fO' or a.size * b.size > 4096:
+            return NotImplemented
+        changed = [False]
+
+        def f(x, y):
+            if isinstance(x, (bool, onp.bool_)) or isinstance(y, (bool, onp.bool_)):
+                return fop(x, y)
+            x, y = float(x), float(y)
+            r = fop(x, y)
+            if r != r or r in (float('inf'), float('-inf')):
+                return r
+            ex = fop(Fraction(x), Fraction(y))
+            if Fraction(r) == ex:
+                return r
+            changed[0] = True
+            return sym.rat(ex)
+        out = jx.ew(f, a, b)
+        return out if changed[0] else NotImplemented
+    return hook
+
+
+def jx_ctx_exact():
+    ctx = jx_ctx()
+    for op in ('mul', 'add', 'sub'):
+        ctx.hooks[op] = _exact_binop_hook(op)
+    return ctx
+
+
+NOTE_EXACT = ('all-reals semantics also for constant sub-expressions: a product / sum / difference of two binary64 constants inside the traced program that is not '
+              'exactly representable is kept as its exact rational (JX would otherwise fold it with rounding, which breaks exact identities by one ulp)')
+NOTE_RECIP = 'x / d with symbolic d is encoded as x * r_d with r_d * d = 1 (d != 0 assumed: 1+nu, 1-2nu, radii of the quadrature points, det F)'
+
+
+def prove_atoms(c, name, spec, cap=60, order=('core', 'nlsat'), side=True, extra=()):
+    """like Case.prove, but side=False proves the atoms WITHOUT the definitional side conditions of the encoding (linear-solve
+    relations, reciprocal definitions, Ackermann constraints) and without the box: the goal then is an identity of the
+    expressions in all their atoms, which is the stronger statement (dropping assumptions keeps `unsat` sound) and is what z3
+    decides in seconds (with the side conditions present the same queries come back unknown)."""
+    import jax
+    assumes, atoms = spec(c.inp, c.out)
+    if isinstance(atoms, sym.Atom):
+        atoms = [atoms]
+    base = (list(assumes) + c.side(True) if side else []) + list(extra)
+    recs = []
+    for i, atom in enumerate(atoms):
+        def concrete(vals, i=i):
+            ci = c.conc_inputs(vals)
+            co = c.real(vals)
+            ca, catoms = spec(ci, co)
+            if isinstance(catoms, sym.Atom):
+                catoms = [catoms]
+            ok = all(bool(x) for x in flat(list(ca))) if side else True
+            return ok, catoms[i], dict(outputs=[onp.asarray(l).tolist() for l in jax.tree_util.tree_leaves(co)][:4])
+        recs.append(c.h.prove('%s.%s' % (name, atom.name) if atom.name else name, base, atom, inputs=c.inp, concrete=concrete, cap=cap, order=order))
+    return recs
+
+
+SYM_PAIRS = [(a, i, b, j) for a in range(3) for i in range(2) for b in range(3) for j in range(2) if (a, i) < (b, j)]
+
+
+def stiffness_case(h, kind, mode, qdeg, label=None):
+    """K = create_mechanics_functions(fs(X), mode, material(E, nu)).compute_element_stiffnesses(U, state)[0] on one triangle with
+    symbolic nodal coordinates X, moduli and displacements"""
+    import jax.numpy as jnp
+    from ..jxh import Case
+    S = Setup(1, qdeg)
+    M = _mods()
+    axi = mode == 'axisymmetric'
+    ns = NSTATE[kind]
+
+    def f(X, E, nu, U, Q):
+        fs = S.fs(X, 'axisymmetric' if axi else 'cartesian')
+        mech = M[0].create_mechanics_functions(fs, mode, material(kind, E, nu))
+        return mech.compute_element_stiffnesses(U, Q, 0.125)[0]
+    Z = onp.zeros((3, 2))
+    ex = dict(X=_X0(S, axi), E=1.0, nu=0.3, U=Z + 0.05, Q=onp.zeros((1, S.nq, ns)) + 0.1)
+    smp = lambda rng: [_rand_X(S, rng, axi), rng.uniform(0.5, 2.0), rng.uniform(-0.3, 0.45), rng.normal(size=(3, 2)) * 0.1, rng.normal(size=(1, S.nq, ns)) * 0.1]
+    with det_by_closed_form():
+        return Case(h, f, ex, sampler=smp, label=label or 'stiffness[%s/%s/q%d]' % (kind, mode, qdeg), ctx=jx_ctx_exact(), validate=2, rtol=1e-7)
+
+
+def _sym_spec(i, o):
+    return _box(i), Eq([o[a, k, b, l] for a, k, b, l in SYM_PAIRS], [o[b, l, a, k] for a, k, b, l in SYM_PAIRS], name='K_abij_eq_K_baji')
+
+
+STIFF_QUICK = [('linear', 'plane strain', 2), ('linear', 'axisymmetric', 2), ('green_lagrange', 'plane strain', 2), ('green_lagrange', 'axisymmetric', 2),
+               ('neohookean', 'plane strain', 1), ('neohookean', 'axisymmetric', 1), ('neohookean_coupled', 'plane strain', 2), ('synthetic', 'plane strain', 2)]
+STIFF_THOROUGH = [('neohookean', 'plane strain', 2), ('neohookean', 'axisymmetric', 2), ('neohookean_coupled', 'axisymmetric', 2), ('synthetic', 'axisymmetric', 2),
+                  ('green_lagrange', 'axisymmetric', 4)]
+
+
+def _jx_notes(h):
+    h.assume_note(NOTE_DET, NOTE_UF, NOTE_EXACT, NOTE_RECIP,
+                  'element Jacobian non-singular: the shape gradients are the solution of J^T g = dN (jnp solve encoded relationally, hash-consed)')
+    h.outside('that jax.hessian of the element energy is its Hessian (JAX autodiff trusted); element order > 1; rounding error of evaluation '
+              '(the real K is symmetric to ~1e-15 relative only)', 'path-dependent repository materials (J2, viscoelastic) in the element-level identities: '
+              'a harness material with two internal variables stands in for the state plumbing')
+
+
+def _register_o2_symmetry():
+    for kind, mode, qdeg in STIFF_QUICK + STIFF_THOROUGH:
+        tiers = ('quick', 'thorough') if (kind, mode, qdeg) in STIFF_QUICK else ('thorough',)
+
+        def ob(h, kind=kind, mode=mode, qdeg=qdeg):
+            _jx_encoded(h)
+            _jx_notes(h)
+            h.bounds('O2: one P1 triangle, nodal coordinates X (3x2), E, nu, nodal displacements U (3x2), internal state: ALL reals (the identity is proved without '
+                     'any hypothesis, in particular for every triangle and every modulus); material %s, mode %s, %d-point rule' % (kind, mode, len(Setup(1, qdeg).qr)))
+            c = stiffness_case(h, kind, mode, qdeg)
+            prove_atoms(c, 'symmetry', _sym_spec, cap=150, order=('core', 'nlsat'), side=False)
+        ob.__doc__ = 'element stiffness K[a,i,b,j] = K[b,j,a,i] exactly: jaxpr of MechanicsFunctions.compute_element_stiffnesses on one symbolic-coordinate triangle'
+        obligation(P, 'O2.element_stiffness_symmetric[%s/%s/q%d]' % (kind, mode.replace(' ', '_'), qdeg), tiers=tiers, cap=600)(ob)
+
+
+_register_o2_symmetry()
+
+
+# ------------------------------------------------------------------------------------------ O2: Newmark element Hessian
+def newmark_case(h, kind, mode, qdeg, label=None):
+    """(Hessian of DynamicsFunctions.compute_algorithmic_energy w.r.t. U, DynamicsFunctions.compute_element_hessians(U, UPredicted)[0]) on one
+    triangle with symbolic coordinates, moduli, density, Newmark beta, time step, U and UPredicted"""
+    import jax
+    import jax.numpy as jnp
+    from ..jxh import Case
+    S = Setup(1, qdeg)
+    M = _mods()
+    axi = mode == 'axisymmetric'
+
+    def f(X, E, nu, rho, beta, U, Up, dt):
+        fs = S.fs(X, 'axisymmetric' if axi else 'cartesian')
+        dyn = M[0].create_dynamics_functions(fs, mode, material(kind, E, nu, rho), M[0].NewmarkParameters(gamma=0.5, beta=beta))
+        H = jax.hessian(lambda u: dyn.compute_algorithmic_energy(u, Up, S.state(), dt))(U)
+        return H, dyn.compute_element_hessians(U, Up, S.state(), dt)[0]
+    Z = onp.zeros((3, 2))
+    ex = dict(X=_X0(S, axi), E=1.0, nu=0.3, rho=1.5, beta=0.25, U=Z + 0.05, Up=Z - 0.1, dt=0.5)
+    smp = lambda rng: [_rand_X(S, rng, axi), rng.uniform(0.5, 2.0), rng.uniform(-0.3, 0.45), rng.uniform(0.5, 2.0), rng.uniform(0.1, 0.5),
+                       rng.normal(size=(3, 2)) * 0.1, rng.normal(size=(3, 2)) * 0.1, rng.uniform(0.1, 1.0)]
+    with det_by_closed_form():
+        return Case(h, f, ex, sampler=smp, label=label or 'newmark[%s/%s/q%d]' % (kind, mode, qdeg), ctx=jx_ctx_exact(), validate=2, rtol=1e-7)
+
+
+ALL_PAIRS = [(a, i, b, j) for a in range(3) for i in range(2) for b in range(3) for j in range(2)]
+
+
+def _newmark_hessian_spec(i, o):
+    H, K = o
+    return _box(i), Eq([K[p] for p in ALL_PAIRS], [H[p] for p in ALL_PAIRS], name='element_hessian_is_hessian_of_algorithmic_energy', scale=1.0)
+
+
+def _newmark_sym_spec(i, o):
+    H, K = o
+    return _box(i), Eq([K[a, k, b, l] for a, k, b, l in SYM_PAIRS], [K[b, l, a, k] for a, k, b, l in SYM_PAIRS], name='K_abij_eq_K_baji')
+
+
+def _newmark_meta(h, kind, mode, qdeg):
+    _jx_encoded(h)
+    _jx_notes(h)
+    h.bounds('O2 Newmark: one P1 triangle, nodal coordinates, E, nu, density rho, Newmark beta, dt, U, UPredicted: reals; box for the Hessian comparison: ' + BOX +
+             ', rho > 0, beta > 0, dt > 0; material %s, mode %s, %d-point rule' % (kind, mode, len(Setup(1, qdeg).qr)))
+
+
+@obligation(P, 'O2.newmark_element_hessian[linear]', cap=600)
+def o2_newmark_linear(h):
+    """linear elasticity (quadratic strain energy): DynamicsFunctions.compute_element_hessians equals the Hessian of the Newmark
+    algorithmic energy (strain energy + inertia) w.r.t. U and is symmetric — plane strain and axisymmetric"""
+    for mode in ('plane strain', 'axisymmetric'):
+        _newmark_meta(h, 'linear', mode, 2)
+        c = newmark_case(h, 'linear', mode, 2)
+        prove_atoms(c, 'newmark[%s]' % mode, _newmark_hessian_spec, cap=100, side=False)
+        prove_atoms(c, 'newmark[%s]' % mode, _newmark_sym_spec, cap=100, side=False)
+
+
+@obligation(P, 'O2.newmark_element_hessian_symmetric[nonlinear]', cap=600)
+def o2_newmark_sym(h):
+    """the Newmark element Hessian of a nonlinear material is symmetric (whatever point it is evaluated at)"""
+    for kind, mode, q in (('green_lagrange', 'plane strain', 2), ('neohookean', 'plane strain', 1)):
+        _newmark_meta(h, kind, mode, q)
+        c = newmark_case(h, kind, mode, q)
+        prove_atoms(c, 'newmark[%s/%s]' % (kind, mode), _newmark_sym_spec, cap=100, side=False)
+
+
+@obligation(P, 'O2.newmark_element_hessian_at_U[green_lagrange]', cap=600)
+def o2_newmark_nonlinear(h):
+    """narrow query, NONLINEAR material (LinearElastic with 'strain measure': 'green lagrange'): element Hessian of the dynamics
+    functions == jax.hessian of compute_algorithmic_energy w.r.t. U. On the unchanged tree _compute_newmark_element_hessians hands
+    `U - UPredicted` to the element Hessian, so the strain-energy part is evaluated at U - UPredicted instead of U."""
+    _newmark_meta(h, 'green_lagrange', 'plane strain', 1)
+    c = newmark_case(h, 'green_lagrange', 'plane strain', 1)
+    c.prove('newmark[green_lagrange/plane strain]', _newmark_hessian_spec, cap=200, order=('nlsat', 'core'))
+
+
+# =========================================================================================== O3: multi-block = single block
+BLOCKINGS = {
+    '2el_split': (2, (('left', (0,)), ('right', (1,)))),
+    '2el_split_reversed_keys': (2, (('b', (1,)), ('a', (0,)))),
+    '3el_interleaved': (3, (('outer', (0, 2)), ('middle', (1,)))),
+}
+
+
+def blocks_case(h, kind, blocking, qdeg):
+    import jax.numpy as jnp
+    from ..jxh import Case
+    nel, blocks = BLOCKINGS[blocking]
+    S = Setup(nel, qdeg)
+    M = _mods()
+    w = max(1, NSTATE[kind])
+
+    def f(X, E, nu, U, Q, dt):
+        bl = {k: jnp.asarray(v) for k, v in blocks}
+        fs = S.fs(X, 'cartesian', blocks=bl)
+        mat = material(kind, E, nu)
+        one = M[0].create_mechanics_functions(fs, 'plane strain', mat)
+        many = M[0].create_multi_block_mechanics_functions(fs, 'plane strain', {k: mat for k, _ in blocks})
+        return (one.compute_strain_energy(U, Q, dt), many.compute_strain_energy(U, Q, dt),
+                one.compute_updated_internal_variables(U, Q, dt), many.compute_updated_internal_variables(U, Q, dt),
+                one.compute_element_stiffnesses(U, Q, dt), many.compute_element_stiffnesses(U, Q, dt))
+    Z = onp.zeros((S.nn, 2))
+    ex = dict(X=S.X0, E=1.0, nu=0.3, U=Z + 0.05, Q=onp.zeros((nel, S.nq, w)) + 0.1, dt=0.25)
+    smp = lambda rng: [_rand_X(S, rng), rng.uniform(0.5, 2.0), rng.uniform(-0.3, 0.45), rng.normal(size=(S.nn, 2)) * 0.1, rng.normal(size=(nel, S.nq, w)) * 0.1, rng.uniform(0.1, 1.0)]
+    with det_by_closed_form():
+        return Case(h, f, ex, sampler=smp, label='blocks[%s/%s/q%d]' % (kind, blocking, qdeg), ctx=jx_ctx_exact(), validate=2, rtol=1e-7)
+
+
+def _blocks_spec(i, o):
+    e1, e2, s1, s2, k1, k2 = o
+    return _box(i), [Eq(s0(e2), s0(e1), name='strain_energy_multi_block_eq_single_block', scale=1.0),
+                     Eq(s2, s1, name='updated_internal_variables_multi_block_eq_single_block', scale=1.0),
+                     Eq(k2, k1, name='element_stiffnesses_multi_block_eq_single_block', scale=1.0)]
+
+
+BLOCK_QUICK = [('neohookean', '2el_split', 1), ('synthetic', '2el_split', 2), ('green_lagrange', '2el_split_reversed_keys', 2)]
+BLOCK_THOROUGH = [('synthetic', '3el_interleaved', 2), ('neohookean', '3el_interleaved', 1), ('linear', '2el_split', 2), ('neohookean_coupled', '2el_split_reversed_keys', 2)]
+
+
+def _register_o3():
+    for kind, blocking, qdeg in BLOCK_QUICK + BLOCK_THOROUGH:
+        tiers = ('quick', 'thorough') if (kind, blocking, qdeg) in BLOCK_QUICK else ('thorough',)
+
+        def ob(h, kind=kind, blocking=blocking, qdeg=qdeg):
+            _jx_encoded(h)
+            _jx_notes(h)
+            nel, blocks = BLOCKINGS[blocking]
+            h.bounds('O3: %d P1 triangles (mesh %s) split into blocks %s, all blocks carrying the same material %s; nodal coordinates, E, nu, U, internal '
+                     'state (width %d), dt: ALL reals (identities proved without hypotheses); %d-point rule; plane strain'
+                     % (nel, MESHES[nel][1], dict(blocks), kind, max(1, NSTATE[kind]), len(Setup(nel, qdeg).qr)))
+            h.outside('multi-block axisymmetric (create_multi_block_mechanics_functions raises NotImplementedError explicitly); blocks with different materials')
+            c = blocks_case(h, kind, blocking, qdeg)
+            prove_atoms(c, 'blocks', _blocks_spec, cap=100, side=False)
+        ob.__doc__ = ('create_multi_block_mechanics_functions on a mesh split into blocks carrying the same material gives the same strain energy, updated internal '
+                      'variables and element stiffnesses as create_mechanics_functions, for all U / states / coordinates / moduli')
+        obligation(P, 'O3.multi_block_equals_single_block[%s/%s/q%d]' % (kind, blocking, qdeg), tiers=tiers, cap=600)(ob)
+
+
+_register_o3()
+
+
+# =========================================================================================== O4: sum rule
+BCSETS = {
+    'free': [],
+    'pin0_roller1y': [(0, 0), (0, 1), (1, 1)],
+    'node2_fixed_node3_x': [(2, 0), (2, 1), (3, 0)],
+}
+
+
+def sumrule_case(h, kind, bcs, qdeg, mode='plane strain'):
+    import jax
+    import jax.numpy as jnp
+    from ..jxh import Case
+    S = Setup(2, qdeg)
+    M = _mods()
+    Mech, FS = M[0], M[1]
+    axi = mode == 'axisymmetric'
+    ns = NSTATE[kind]
+    nodeSets = {'n%d' % n: jnp.array([n]) for n in range(S.nn)}
+    fs0 = S.fs(jnp.asarray(_X0(S, axi)), 'axisymmetric' if axi else 'cartesian', nodeSets=nodeSets)
+    dm = FS.DofManager(fs0, 2, [FS.EssentialBC(nodeSet='n%d' % n, component=k) for n, k in BCSETS[bcs]])
+    nu_, nb = dm.get_unknown_size(), dm.get_bc_size()
+
+    def f(X, E, nu, Uu, Ub, Q):
+        fs = S.fs(X, 'axisymmetric' if axi else 'cartesian', nodeSets=nodeSets)
+        mat = material(kind, E, nu)
+        mech = Mech.create_mechanics_functions(fs, mode, mat)
+        total = lambda w: mech.compute_strain_energy(dm.create_field(w, Ub), Q, 0.125)
+        U = dm.create_field(Uu, Ub)
+        L = Mech.strain_energy_density_to_lagrangian_density(mat.compute_energy_density)
+        modify = Mech.parse_2D_to_3D_gradient_transformation(mode)
+        el_energy = lambda ue, e: FS.integrate_element_from_local_field(ue, X[S.conns[e]], Q[e], 0.125, fs.shapes[e], fs.shapeGrads[e], fs.vols[e], L, modify)
+        ge = jnp.stack([jax.grad(el_energy)(U[S.conns[e]], e) for e in range(S.nel)])
+        return jax.grad(total)(Uu), jax.hessian(total)(Uu), ge, mech.compute_element_stiffnesses(U, Q, 0.125)
+    ex = dict(X=_X0(S, axi), E=1.0, nu=0.3, Uu=onp.zeros(nu_) + 0.05, Ub=onp.zeros(nb) - 0.02, Q=onp.zeros((2, S.nq, ns)) + 0.1)
+    smp = lambda rng: [_rand_X(S, rng, axi), rng.uniform(0.5, 2.0), rng.uniform(-0.3, 0.45), rng.normal(size=nu_) * 0.1, rng.normal(size=nb) * 0.1, rng.normal(size=(2, S.nq, ns)) * 0.1]
+    with det_by_closed_form():
+        c = Case(h, f, ex, sampler=smp, label='sumrule[%s/%s/q%d/%s]' % (kind, bcs, qdeg, mode), ctx=jx_ctx_exact(), validate=2, rtol=1e-7)
+    # scatter maps by plain loops: unknown number of (node, component), or None
+    unk = {int(d): u for u, d in enumerate(onp.asarray(dm.unknownIndices))}
+    loc = [[[unk.get(int(S.conns[e][a]) * 2 + i) for i in range(2)] for a in range(3)] for e in range(S.nel)]
+    return c, loc, nu_
+
+
+def _sumrule_spec(loc, n):
+    def spec(i, o):
+        g, H, ge, Ke = o
+        r = [[] for _ in range(n)]
+        A = [[[] for _ in range(n)] for _ in range(n)]
+        for e in range(len(loc)):
+            for a in range(3):
+                for k in range(2):
+                    u = loc[e][a][k]
+                    if u is None:
+                        continue
+                    r[u].append(ge[e, a, k])
+                    for b in range(3):
+                        for l in range(2):
+                            v = loc[e][b][l]
+                            if v is not None:
+                                A[u][v].append(Ke[e, a, k, b, l])
+        atoms = []
+        if n:
+            atoms.append(Eq([g[u] for u in range(n)], [v_sum(r[u]) for u in range(n)], name='gradient_of_total_energy_is_scatter_sum_of_element_gradients', scale=1.0))
+            atoms.append(Eq([H[u, v] for u in range(n) for v in range(n)], [v_sum(A[u][v]) for u in range(n) for v in range(n)],
+                            name='hessian_of_total_energy_is_scatter_sum_of_element_stiffnesses', scale=1.0))
+        return _box(i), atoms
+    return spec
+
+
+SUM_QUICK = [('green_lagrange', 'pin0_roller1y', 2, 'plane strain'), ('neohookean', 'node2_fixed_node3_x', 1, 'plane strain'), ('linear', 'pin0_roller1y', 2, 'axisymmetric')]
+SUM_THOROUGH = [('neohookean', 'free', 1, 'plane strain'), ('synthetic', 'node2_fixed_node3_x', 2, 'plane strain'), ('green_lagrange', 'free', 2, 'axisymmetric'),
+                ('neohookean', 'pin0_roller1y', 1, 'axisymmetric')]
+
+
+def _register_o4():
+    for kind, bcs, qdeg, mode in SUM_QUICK + SUM_THOROUGH:
+        tiers = ('quick', 'thorough') if (kind, bcs, qdeg, mode) in SUM_QUICK else ('thorough',)
+
+        def ob(h, kind=kind, bcs=bcs, qdeg=qdeg, mode=mode):
+            _jx_encoded(h)
+            _jx_notes(h)
+            h.bounds('O4: 2 P1 triangles %s / 4 nodes / 2 fields, essential BCs (node, component) = %s (real DofManager, concrete mask; every mask of this mesh is O1); nodal '
+                     'coordinates, E, nu, unknown vector Uu, bc values Ub, internal state: ALL reals; material %s, %s, %d-point rule'
+                     % (MESHES[2][1], BCSETS[bcs], kind, mode, len(Setup(2, qdeg).qr)))
+            c, loc, n = sumrule_case(h, kind, bcs, qdeg, mode)
+            prove_atoms(c, 'sumrule', _sumrule_spec(loc, n), cap=150, side=False)
+        ob.__doc__ = ('jax.grad / jax.hessian of the total strain energy w.r.t. the unknown vector (through DofManager.create_field) equal the scatter-sum of the element '
+                      'gradients / element stiffnesses over the unknown dofs (oracle scatter by plain loops over conns and unknownIndices)')
+        obligation(P, 'O4.sum_rule[%s/%s/q%d/%s]' % (kind, bcs, qdeg, mode.replace(' ', '_')), tiers=tiers, cap=900)(ob)
+
+
+_register_o4()
+
+
+# =========================================================================================== O5: pressure projection through the factories
+PP_CALLS = [
+    ('create_mechanics_functions', 'plane strain'), ('create_mechanics_functions', 'axisymmetric'),
+    ('create_multi_block_mechanics_functions', 'plane strain'),
+    ('create_dynamics_functions', 'plane strain'), ('create_dynamics_functions', 'axisymmetric'),
+]
+
+
+def _pp_call(factory, mode, degree):
+    """build the functions with a pressure-projection degree on a 2-element P1 mesh (3-point rule) and evaluate energy, element
+    stiffnesses / Hessians and the internal-variable update once; returns (ok, detail)"""
+    import traceback
+    import jax.numpy as jnp
+    S = Setup(2, 2)
+    M = _mods()
+    Mech = M[0]
+    axi = mode == 'axisymmetric'
+    X = jnp.asarray(_X0(S, axi))
+    fs = S.fs(X, 'axisymmetric' if axi else 'cartesian', blocks={'a': jnp.array([0]), 'b': jnp.array([1])})
+    mat = material('neohookean', 1.0, 0.3, 1.0)
+    U = jnp.asarray(0.01 * onp.arange(S.nn * 2, dtype=float).reshape(S.nn, 2))
+    try:
+        if factory == 'create_mechanics_functions':
+            F = Mech.create_mechanics_functions(fs, mode, mat, pressureProjectionDegree=degree)
+            Q = F.compute_initial_state()
+            out = (F.compute_strain_energy(U, Q), F.compute_element_stiffnesses(U, Q), F.compute_updated_internal_variables(U, Q))
+        elif factory == 'create_multi_block_mechanics_functions':
+            F = Mech.create_multi_block_mechanics_functions(fs, mode, {'a': mat, 'b': mat}, pressureProjectionDegree=degree)
+            Q = F.compute_initial_state()
+            out = (F.compute_strain_energy(U, Q), F.compute_element_stiffnesses(U, Q), F.compute_updated_internal_variables(U, Q))
+        else:
+            F = Mech.create_dynamics_functions(fs, mode, mat, Mech.NewmarkParameters(), pressureProjectionDegree=degree)
+            Q = F.compute_initial_state()
+            out = (F.compute_algorithmic_energy(U, 0.5 * U, Q, 0.1), F.compute_element_hessians(U, 0.5 * U, Q, 0.1), F.compute_updated_internal_variables(U, Q, 0.1))
+        vals = [onp.asarray(o) for o in out]
+        finite = all(bool(onp.all(onp.isfinite(v))) for v in vals)
+        return finite, 'executed; energy %.6g, stiffness shape %s, all finite: %s' % (float(vals[0]), vals[1].shape, finite)
+    except (AttributeError, NameError, TypeError, ValueError, IndexError, RecursionError) as e:
+        tb = traceback.extract_tb(e.__traceback__)
+        site = [fr for fr in tb if fr.filename.endswith('Mechanics.py')]
+        where = '%s:%d in %s: `%s`' % (os.path.basename(site[-1].filename), site[-1].lineno, site[-1].name, site[-1].line) if site else ''
+        return False, '%s: %s at %s' % (type(e).__name__, e, where)
+
+
+def _register_o5():
+    for factory in ('create_mechanics_functions', 'create_multi_block_mechanics_functions', 'create_dynamics_functions'):
+        modes = [m for f, m in PP_CALLS if f == factory]
+
+        def ob(h, factory=factory, modes=modes):
+            M = _mods()
+            h.encoded(getattr(M[0], factory), M[0].define_pressure_projection_gradient_tranformation, M[0].volume_average_J_gradient_transformation)
+            h.bounds('O5: the calls %s(functionSpace, mode2D, material, ..., pressureProjectionDegree=d) for mode2D in %s, d in (1, 0) on a 2-element P1 mesh with the 3-point rule, '
+                     'neo-Hookean material, each followed by one evaluation of the energy, the element stiffnesses / Hessians and the internal-variable update' % (factory, modes))
+            h.outside('values computed with pressure projection (the option must first be executable at all); no solver query is involved: the obligation is the ground fact '
+                      '"the advertised option executes", a failure is reported as a violation whose replay repeats the calls')
+            h.assume_note('C02 statement: "for every advertised kinematic option (plane strain, axisymmetric, with or without volume-averaged pressure projection)"')
+            name = 'factory_executes_with_pressure_projection'
+            qn = '%s/%s' % (h.ob, name)
+            if h.replay is not None and h.replay.get('query') != qn:
+                return
+            results = [(m, d) + _pp_call(factory, m, d) for m in modes for d in (1, 0)]
+            bad = [(m, d, detail) for m, d, ok, detail in results if not ok]
+            detail = '; '.join('[mode2D=%r, degree=%d] %s' % (m, d, t) for m, d, t in (bad or [(m, d, t) for m, d, ok, t in results]))
+            if h.replay is not None:
+                h.replay_result = dict(status='violated' if bad else 'unreproduced', detail=detail)
+            elif bad:
+                h.violation(name, dict(factory='optimism.Mechanics.' + factory, failing_calls=[dict(mode2D=m, pressureProjectionDegree=d) for m, d, _ in bad],
+                                       mesh='2 P1 triangles, 3-point rule', material='Neohookean E=1 nu=0.3 density=1'), detail)
+            else:
+                h.fact(name, True, detail)
+        ob.__doc__ = ('narrow query: the factory accepts a pressure-projection degree (volume-averaged J) and the functions it returns can be evaluated — every advertised '
+                      'kinematic option must at least execute')
+        obligation(P, 'O5.pressure_projection[%s]' % factory, cap=300)(ob)
+
+
+_register_o5()
